@@ -494,6 +494,20 @@ class Ledger:
             {expr_str(l, 30): sorted(v)[:8] for l, v in b.items()}, n)
 
     def t_const(self, site):
+        if site.kind == "index" and str(site.extra.get("callee", "")).endswith(("copy_from_slice", "clone_from_slice")):
+            # both sides are whole arrays of the same constant length (e.g. the two 65,536-word memories): lengths cannot differ
+            raw = site.fn.term(site.bb).get("args", [])
+            if len(raw) == 2:
+                lens = []
+                for a in raw:
+                    txt = expr_str(site.fn.expr(a, 14), 2000)
+                    if re.search(r"Range|index\(|get\(|split|\.\.|take\(|skip\(", txt):
+                        lens.append(None)
+                        continue
+                    m = re.findall(r"\[\w+; (\d+)\]", txt)
+                    lens.append(m[-1] if m else None)
+                if lens[0] is not None and lens[0] == lens[1]:
+                    return "operands constant: both slices are whole arrays of %s elements" % lens[0]
         if site.kind in ("divisionbyzero", "remainderbyzero") and "cond" in site.extra:
             try:
                 v = formula.evaluate(site.extra["cond"], {})
@@ -774,7 +788,10 @@ class Ledger:
             for x in expr_walk(full):
                 if x[0] == "call" and x[1] and re.search(r"Iterator>?::position$", str(x[1])):
                     src = expr_str(x[2][0], 200)
-                    if expr_str(base, 100) in src and not re.search(r"(skip|take|filter|step_by|rev|chain)\(", src):
+                    outer = kit.strip_refs(base[1]) if base[0] == "field" and str(base[2]) == "0" else None      # newtype around the Vec
+                    while outer is not None and outer[0] in ("deref", "ref"):
+                        outer = outer[1]
+                    if (expr_str(base, 100) in src or (outer is not None and re.search(r"\biter\(&\*?%s\)" % re.escape(expr_str(outer, 60)), src))) and not re.search(r"(skip|take|filter|step_by|rev|chain)\(", src):
                         return "guarded: the index is the result of position() over the indexed collection itself"
         if site.kind == "unwrap":
             # v.get(i).expect(..) dominated by the false edge of `i >= v.len()` (or the true edge of `i < v.len()`)
